@@ -288,6 +288,12 @@ def compare_rows(pre, post, expected):
             continue
         for c, how in exp['columns'].items():
             if c not in got['cols']:
+                if how[0] != 'new' and how[1] in old['cols'] and \
+                        old['rows']:
+                    # a column that the evolved models keep is gone, and
+                    # the values it held with it
+                    out.append(('surviving-column-lost-with-its-values',
+                                '%s.%s' % (table, c)))
                 continue
             ci = got['cols'].index(c)
             for k, row in gk.items():
